@@ -59,6 +59,18 @@ def make_units(tier):
                         for k in range(K):
                             units.append({'name': '%s+%s' % (A['kind'] + A['init'], B['kind'] + B['init']), 'inters': [A, B],
                                           'flavour': flavour, 'fs': fs, 'bound': bound, 'shard': [k, K], 'policy': pol})
+                if variant == 0 and fs:
+                    # publisher pacing "alternating + slow sender": two streams/channels answered by the same side, manual
+                    # publishers emitting A0,B0,A1,B1,... as one actor; the writer may be blocked (blk alternative)
+                    for init in ('c', 's'):
+                        for kinds in (('stream', 'stream'), ('stream', 'channel'), ('channel', 'channel')):
+                            ds = []
+                            for tg, kd in zip('AB', kinds):
+                                d = dict(kind=kd, init=init, tag=tg, down=3 if tg == 'A' else 2, up=0 if kd == 'stream' else 1, size='F',
+                                         pub='manual', credit='max', ending='flag' if tg == 'A' else 'complete')
+                                ds.append(d)
+                            units.append({'name': 'alternating:%s+%s/%s' % (kinds[0], kinds[1], init), 'inters': ds, 'flavour': flavour, 'fs': fs,
+                                          'bound': 1 if tier == 'quick' else 2, 'shard': [0, 1], 'round_robin': True, 'slow_sender': True})
                 if tier == 'thorough' and variant == 0:
                     for trip in itertools.combinations(range(len(items)), 3):
                         if sum(trip) % 7:
@@ -79,7 +91,7 @@ def bounds(tier):
 def scenario_of(unit):
     alts = ('all', 'chunk') if unit['flavour'] == 'tcp' else ('all',)
     return Mix([Inter.from_spec(_full(d)) for d in unit['inters']], unit['flavour'], unit['fs'], alts=alts,
-               modes=('Q', '0'), monitors_=('delivery',), name='mix', policy=unit.get('policy', 'deliver-first'))
+               modes=('Q', '0'), monitors_=('delivery',), name='mix', policy=unit.get('policy', 'deliver-first'), round_robin=unit.get('round_robin', False), slow_sender=unit.get('slow_sender', False))
 
 
 def _full(d):
